@@ -120,6 +120,14 @@ MatchKinds(c, ext, cs) ==
   (IF \E r \in RecSet(c) : AllU(ext) \cap AllU(r) # {} THEN {"U"} ELSE {}) \cup
   (IF ~cs /\ \E r \in RecSet(c) : \E a \in AllP(ext), b \in AllP(r) : a # b /\ CF(a) = CF(b) THEN {"Pcase"} ELSE {}) \cup
   (IF ~cs /\ \E r \in RecSet(c) : \E a \in AllU(ext), b \in AllU(r) : a # b /\ CF(a) = CF(b) THEN {"Ucase"} ELSE {})
+\* how URI prefixes nest: a synonym extending its own record's canonical prefix (or the reverse), nesting across
+\* records, two prefixes differing only in their last character
+NestKinds(rs) ==
+  (IF \E i \in 1..Len(rs) : \E x \in rs[i].us : IsProperPfx(rs[i].u, x) THEN {"syn-extends-own-canon"} ELSE {}) \cup
+  (IF \E i \in 1..Len(rs) : \E x \in rs[i].us : IsProperPfx(x, rs[i].u) THEN {"canon-extends-own-syn"} ELSE {}) \cup
+  (IF \E i, j \in 1..Len(rs) : i # j /\ \E x \in AllU(rs[i]), y \in AllU(rs[j]) : IsProperPfx(x, y) THEN {"cross-nesting"} ELSE {}) \cup
+  (IF \E i, j \in 1..Len(rs) : \E x \in AllU(rs[i]), y \in AllU(rs[j]) :
+        x # y /\ Len(x) = Len(y) /\ Len(x) > 0 /\ SubSeq(x, 1, Len(x) - 1) = SubSeq(y, 1, Len(y) - 1) THEN {"last-char-differs"} ELSE {})
 HasEmpty(rs) == \E i \in 1..Len(rs) : <<>> \in AllP(rs[i]) \/ <<>> \in AllU(rs[i])
 \* add_prefix builds the Record first (pydantic validation may reject it)
 AddPrefix(c, ext, cs, mg) ==
